@@ -651,6 +651,29 @@ class Expression:
     # let `ndarray <op> Expression` fall back to the reflected operators
     __array_priority__ = 1000
 
+    def __array_ufunc__(self, ufunc, method, *inputs, **kwargs):
+        """numpy ufuncs on expressions build expressions (never object arrays of expressions)"""
+        ops = {
+            "add": lambda a, b: a + b,
+            "subtract": lambda a, b: a - b,
+            "multiply": lambda a, b: a * b,
+            "divide": lambda a, b: a / b,
+            "true_divide": lambda a, b: a / b,
+            "power": lambda a, b: a**b,
+            "negative": lambda a: -a,
+            "positive": lambda a: a,
+            "absolute": lambda a: abs(a),
+            "square": lambda a: a * a,
+        }
+        if method == "__call__" and not kwargs and ufunc.__name__ in ops:
+            args = [arg if isinstance(arg, Expression) else to_expression(arg) for arg in inputs]
+            return ops[ufunc.__name__](*args)
+        if any(isinstance(arg, np.ndarray) and arg.ndim > 0 for arg in inputs):
+            return NotImplemented  # would be an object array of expressions
+        # other ufuncs: numpy's object loop on the expression itself
+        args = [np.array(arg, dtype=object) if isinstance(arg, Expression) else arg for arg in inputs]
+        return getattr(ufunc, method)(*args, **kwargs)
+
     def __init__(self, function, arguments):
         self.function = function
         self.arguments = list(arguments)
